@@ -1143,27 +1143,7 @@ where
                 },
 
                 token => {
-                    let pending = self.pending_table_text.take();
-                    let contains_nonspace = pending.iter().any(|&(split, ref text)| match split {
-                        SplitStatus::Whitespace => false,
-                        SplitStatus::NotWhitespace => true,
-                        SplitStatus::NotSplit => any_not_whitespace(text),
-                    });
-
-                    if contains_nonspace {
-                        self.sink.parse_error(Borrowed("Non-space table text"));
-                        for (split, text) in pending.into_iter() {
-                            match self.foster_parent_in_body(Token::Characters(split, text)) {
-                                ProcessResult::Done => (),
-                                _ => panic!("not prepared to handle this!"),
-                            }
-                        }
-                    } else {
-                        for (_, text) in pending.into_iter() {
-                            self.append_text(text);
-                        }
-                    }
-
+                    self.flush_pending_table_text();
                     ProcessResult::Reprocess(self.orig_mode.take().unwrap(), token)
                 },
             },
@@ -1600,6 +1580,31 @@ where
 
                 token => self.unexpected(&token),
             },
+        }
+    }
+
+    /// The "anything else" steps of the "in table text" insertion mode: insert the pending
+    /// table character tokens, foster parenting them if any is not whitespace.
+    pub(crate) fn flush_pending_table_text(&self) {
+        let pending = self.pending_table_text.take();
+        let contains_nonspace = pending.iter().any(|&(split, ref text)| match split {
+            SplitStatus::Whitespace => false,
+            SplitStatus::NotWhitespace => true,
+            SplitStatus::NotSplit => any_not_whitespace(text),
+        });
+
+        if contains_nonspace {
+            self.sink.parse_error(Borrowed("Non-space table text"));
+            for (split, text) in pending.into_iter() {
+                match self.foster_parent_in_body(Token::Characters(split, text)) {
+                    ProcessResult::Done => (),
+                    _ => panic!("not prepared to handle this!"),
+                }
+            }
+        } else {
+            for (_, text) in pending.into_iter() {
+                self.append_text(text);
+            }
         }
     }
 
